@@ -15,6 +15,7 @@ import (
 	"github.com/internetarchive/Zeno/internal/pkg/archiver"
 	"github.com/internetarchive/Zeno/internal/pkg/config"
 	"github.com/internetarchive/Zeno/internal/pkg/postprocessor"
+	"github.com/internetarchive/Zeno/internal/pkg/postprocessor/domainscrawl"
 	"github.com/internetarchive/Zeno/internal/pkg/preprocessor"
 	"github.com/internetarchive/Zeno/pkg/models"
 	"github.com/internetarchive/Zeno/verifharness/vh"
@@ -89,6 +90,17 @@ func c10samples() []c10sample {
 		{name: "s3", ctype: "application/xml", server: "AmazonS3", uri: "http://bucket.example.com/?list-type=2&delimiter=/", status: 200, chunks: []string{
 			"<?xml version=\"1.0\"?><ListBucketResult>", "<Name>b</Name><Prefix></Prefix>", "<IsTruncated>true</IsTruncated><NextContinuationToken>tok</NextContinuationToken>",
 			"<Contents><Key>a.txt</Key><Size>3</Size></Contents>", "<Contents><Key>z</Key><Size>0</Size></Contents>", "<CommonPrefixes><Prefix>d/</Prefix></CommonPrefixes>", "</ListBucketResult>"}},
+		// the listing corners: a truncated page of prefixes only (no keys), with its continuation token in a chunk of its own;
+		// the older API (marker paging)
+		{name: "s3-prefixes", ctype: "application/xml", server: "AmazonS3", uri: "http://bucket.example.com/?list-type=2&delimiter=/&prefix=d/", status: 200, chunks: []string{
+			"<?xml version=\"1.0\"?><ListBucketResult>", "<Name>b</Name><Prefix>d/</Prefix>", "<IsTruncated>true</IsTruncated>", "<NextContinuationToken>tok</NextContinuationToken>",
+			"<CommonPrefixes><Prefix>d/e/</Prefix></CommonPrefixes>", "<CommonPrefixes><Prefix>d/f/</Prefix></CommonPrefixes>", "</ListBucketResult>"}},
+		{name: "s3-legacy", ctype: "application/xml", server: "AmazonS3", uri: "http://bucket.example.com/?prefix=d/", status: 200, chunks: []string{
+			"<?xml version=\"1.0\"?><ListBucketResult>", "<Name>b</Name><Prefix>d/</Prefix>", "<IsTruncated>true</IsTruncated>", "<NextMarker>d/k2</NextMarker>",
+			"<Contents><Key>d/k1</Key><Size>3</Size></Contents>", "<Contents><Key>d/k2</Key><Size>4</Size></Contents>", "</ListBucketResult>"}},
+		// links cut inside their attribute values: what is spliced in lands inside a URL
+		{name: "html-links", ctype: "text/html; charset=utf-8", uri: "http://example.com/dir/links.html", status: 200, chunks: []string{
+			"<!DOCTYPE html><html><body><a href=\"", "/p/", "q?x=1", "\">a</a><a href=\"http://", "other.example.org", "/z\">b</a><img src=\"", "i.png\"></body></html>"}},
 		{name: "m3u8-master", ctype: "application/vnd.apple.mpegurl", uri: "http://example.com/v/master.m3u8", status: 200, chunks: []string{
 			"#EXTM3U\n", "#EXT-X-VERSION:3\n", "#EXT-X-MEDIA:TYPE=AUDIO,GROUP-ID=\"a\",NAME=\"en\",URI=\"a.m3u8\"\n", "#EXT-X-STREAM-INF:BANDWIDTH=1000,AUDIO=\"a\"\n", "v1.m3u8\n",
 			"#EXT-X-STREAM-INF:BANDWIDTH=2000\n", "v2.m3u8\n"}},
@@ -158,7 +170,19 @@ func c10(args []string) error {
 		keep, _ = os.Create(p)
 		defer keep.Close()
 	}
+	var pass func(s c10sample, doc []int) int
+	// every input is processed twice: with the default settings, and as a domains crawl (--domains-crawl example.com),
+	// which routes outlinks through code of its own
 	one := func(s c10sample, doc []int) (links int) {
+		links = pass(s, doc)
+		domainscrawl.Reset()
+		if err := domainscrawl.AddElements([]string{"example.com"}); err != nil {
+			panic(err)
+		}
+		defer domainscrawl.Reset()
+		return links + pass(s, doc)
+	}
+	pass = func(s c10sample, doc []int) (links int) {
 		text := render(s, doc)
 		u := &models.URL{Raw: s.uri, Hops: 0}
 		if err := preprocessor.NormalizeURL(u, nil); err != nil {
